@@ -46,3 +46,54 @@ def classify_a3(entry, metas, k):
 
 def classify_c02(entry, metas, k, v):
     return classify_a3(entry, metas, k)
+
+
+def classify_c13(spelling, what, clause):
+    """recorded genuine defects of literal emission, recognised by the triggering input"""
+    if spelling == "addr-reject" and clause == "malformed-accepted" and isinstance(what, str) and re.fullmatch(r"[A-Z2-7]{58}", what):
+        # right length and alphabet, only the checksum is wrong
+        return "A16/addr-checksum-not-verified"
+    if spelling == "method" and isinstance(what, str) and any(c in what for c in '"\\\n\r'):
+        return "A10/method-signature-text-not-escaped"
+    return None
+
+
+ZERO_OP_KINDS = {"Break", "Continue", "Nop"}
+
+
+def _walk(nd):
+    yield nd
+    for ch in nd["a"]:
+        yield from _walk(ch)
+
+
+def _comment_on_zero_op(recipe):
+    roots = [recipe["main"]] + [r["body"] for r in recipe.get("rt", [])]
+    for root in roots:
+        for nd in _walk(root):
+            if nd["k"] == "Comment" and nd["s"].splitlines():
+                ch = nd["a"][0]
+                if ch["k"] in ZERO_OP_KINDS or (ch["k"] == "Seq" and not ch["a"]):
+                    return True
+    return False
+
+
+def classify_c18(mode, st, recipe, plain_recipe, annotated, plain, clause):
+    """recorded genuine defects: comments are ops of the block graph, so they (A17) keep an otherwise empty block alive
+    and (A18) separate a store from the load that follows it, which switches the slot optimisation off at that site."""
+    if mode != "comment":
+        return None
+    import pipeline
+    if pipeline._opt_on(st):
+        # attributable to the optimiser interplay iff the two texts agree once slot optimisation is off for both
+        st2 = dict(st, ss=False)
+        ra, rp = pipeline.compile_all([(recipe, [st2]), (plain_recipe, [st2])])
+        if "teal" in ra[0] and "teal" in rp[0]:
+            import tealtok
+            sa, sp = tealtok.strip_comments(ra[0]["teal"]), tealtok.strip_comments(rp[0]["teal"])
+            if sa == sp or _comment_on_zero_op(recipe):
+                return "A18/comment-between-store-and-load-disables-slot-optimisation"
+        return None
+    if _comment_on_zero_op(recipe):
+        return "A17/comment-on-instruction-less-expression-keeps-a-block"
+    return None
